@@ -1288,8 +1288,17 @@ class Interp:
             raise AbsRaise("AttributeError", "astimezone")
         tz = a[0] if a else None
         if isinstance(tz, TZ) and tz.kind == "utc":
-            return o.with_(kind="utc", zone=None)
+            # remember where the instant came from: arithmetic on the UTC line followed by a
+            # conversion back is elapsed-time arithmetic, not wall-clock arithmetic
+            tag = o.tag
+            if o.kind == "zoned" and o.tag is None:
+                tag = f"utc-of:{o.zone}"
+            return o.with_(kind="utc", zone=None, tag=tag)
         if isinstance(tz, TZ):
+            if isinstance(o.tag, str) and o.tag == f"utc-of:{tz.key_}+shifted":
+                return o.with_(kind="zoned", zone=tz.key_, tag="elapsed-arith")
+            if isinstance(o.tag, str) and o.tag == f"utc-of:{tz.key_}":
+                return o.with_(kind="zoned", zone=tz.key_, tag=None)      # there and back: the same value
             return o.with_(kind="zoned", zone=tz.key_, tag="converted")
         raise Unsupported("astimezone without a zone")
 
@@ -1528,6 +1537,17 @@ class Interp:
             if v.get is None:
                 raise AbsRaise("AttributeError", f"unreadable attribute {name}")
             return self.call(v.get, [o], {})
+        if isinstance(v, Closure) and v.fi is not None and v.fi.cls is not None and \
+                any(d.split("(")[0] in ("functools.cached_property", "cached_property") for d in v.fi.decorators):
+            # functools.cached_property: computed on the first read, then an instance attribute
+            prev = getattr(self, "_in_memo", None)
+            self._in_memo = v.fi.qualname
+            try:
+                val = self._call_closure(v, [o], {})
+            finally:
+                self._in_memo = prev
+            o.attrs[name] = val
+            return val
         if isinstance(v, Closure) and v.fi is not None and v.fi.cls is not None:
             kind = v.fi.kind
             if kind == "static":
@@ -1747,6 +1767,10 @@ class Interp:
                                 "America/Port-au-Prince", "Z"})
 
     def _native_obj_attr(self, o, name):
+        if o.name == "datetime.timezone":
+            if name == "utc":
+                return TZ("utc", "UTC", "plain")
+            raise Unsupported(f"datetime.timezone.{name}")
         if o.name in ("base64", "binascii"):
             # pure functions of the standard library on concrete data: computed
             import base64 as _b64, binascii as _ba
@@ -1972,6 +1996,8 @@ class Interp:
         self.ops_seen.add("tzp.localize_utc")
         x = a[0]
         if isinstance(x, DT):
+            if x.kind == "zoned" and x.tag is None and x.is_datetime:
+                return x.with_(kind="utc", zone=None, tag=f"utc-of:{x.zone}")
             return x.with_(kind="utc", zone=None)
         # anything else first goes through tools.to_datetime, as in TZP.localize_utc
         td = self.model.func("tools.to_datetime", required=False)
@@ -2240,7 +2266,9 @@ class Interp:
         elif rank is not None and td.mag != "zero":
             # abstract durations are positive: the result is strictly later/earlier
             rank = rank + (0.5 if sign > 0 else -0.5)
-        tag = d.tag if d.tag in ("seconds-dropped", "instant-moved") else None
+        tag = d.tag if d.tag in ("seconds-dropped", "instant-moved", "elapsed-arith") else None
+        if isinstance(d.tag, str) and d.tag.startswith("utc-of:"):
+            tag = d.tag if td.mag == "zero" or d.tag.endswith("+shifted") else d.tag + "+shifted"
         if tag is None and d.kind == "zoned" and td.tag == "instant-diff" and self.provider != "pytz":
             # wall-clock arithmetic with a difference of instants: off by the change of the
             # zone's offset between the two ends
@@ -2462,7 +2490,8 @@ class Interp:
             raise AbsRaise("TypeError", f"unexpected keyword argument {list(kwargs)[0]}")
         return env
 
-    KNOWN_DECORATORS = ("property", "classmethod", "staticmethod", "abstractmethod", "abc.abstractmethod")
+    KNOWN_DECORATORS = ("property", "classmethod", "staticmethod", "abstractmethod", "abc.abstractmethod",
+                        "functools.cached_property", "cached_property")
 
     def _memo_key(self, x):
         """Python hash/equality of a cache key (functools.lru_cache semantics)."""
@@ -3038,6 +3067,8 @@ class Interp:
                     return NativeObj("copy")
                 if r[1] in ("collections.namedtuple",):
                     return Native("namedtuple", self._namedtuple)
+                if r[1] == "datetime.timezone":
+                    return NativeObj("datetime.timezone")
                 if r[1] in ("base64", "binascii") or r[1].startswith(("base64.", "binascii.")):
                     mod, _, attr = r[1].partition(".")
                     return NativeObj(mod) if not attr else self._native_obj_attr(NativeObj(mod), attr)
